@@ -236,7 +236,7 @@ META = {
         "level": "exploration",
         "design_ref": "DESIGN.md §4 C13",
         "technique": "property-based testing with assembly probes: generated register files loaded by a caller stub and recorded by a recorder fake (both trampoline forms) + differential Rust-level signature shapes (faked call vs. direct call of the fake) + decoded register discipline of the arm64 sequences",
-        "text": "4*10^3 / 4*10^5 generated register files (6 integer argument registers, xmm0-7 at 128 bits, 0-16 stack words, rbx/rbp/r12-r15, returned rax/rdx/xmm0/xmm1) with near (rel32) and far (out of rel32 reach of the trampoline) fakes, each form >= 30% of cases (else exit 2): the fake must see exactly what the caller set incl. rsp and the return address, the caller exactly what the fake returned, callee-saved registers and rsp preserved. 4*10^3 / 4*10^5 cases over 10 Rust-level shapes (stack-passed integers and doubles, 48-byte aggregates, hidden return slot, u128 and scalar-pair returns, extern C twins) compared differentially. Every probe case may carry earlier installations on the same function, make its call at the moment the library flushes the entry it has just patched, and synthetic originals start with a generated prologue. The placement engine of C01 runs here too (a fake that is never entered receives nothing). arm64: registers written by the emitted sequences must be within x9..x17 and never sp (simulation).",
+        "text": "4*10^3 / 4*10^5 generated register files (6 integer argument registers, xmm0-7 at 128 bits and, on AVX hosts, ymm0-7 at 256 bits, 0-16 stack words, rbx/rbp/r12-r15, returned rax/rdx/xmm0/xmm1 and the upper half of ymm0) with near (rel32) and far (out of rel32 reach of the trampoline) fakes, each form >= 30% of cases (else exit 2): the fake must see exactly what the caller set incl. rsp and the return address, the caller exactly what the fake returned, callee-saved registers and rsp preserved. 4*10^3 / 4*10^5 cases over 10 Rust-level shapes (stack-passed integers and doubles, 48-byte aggregates, hidden return slot, u128 and scalar-pair returns, extern C twins) compared differentially. Every probe case may carry earlier installations on the same function, make its call at the moment the library flushes the entry it has just patched, and synthetic originals start with a generated prologue. The placement engine of C01 runs here too (a fake that is never entered receives nothing). arm64: registers written by the emitted sequences must be within x9..x17 and never sp (simulation).",
         "note": NATIVE_NOTE + " rax, r10, r11 on entry to the fake are not compared (caller-saved, carry no argument of the supported signatures; the long form legitimately uses rax). The 32-bit ARM scratch-register question is judged once, under C16.",
     },
     "C14": {
